@@ -8,8 +8,9 @@ from harness import parse_common as PC
 from harness.driver import Driver, DriverError
 
 PID = 'C02'
-THEOREMS = ['PyDBML.C02.sticky_roundtrip_partial', 'PyDBML.C02.renderDb_sticky', 'PyDBML.C02.stickyNoteRule_ok']
-MODULES = ['PyDBMLProofs.Props.C02Sticky']
+THEOREMS = ['PyDBML.C02.table_roundtrip_partial', 'PyDBML.C02.sticky_roundtrip_partial', 'PyDBML.C02.renderDb_table', 'PyDBML.C02.renderDb_sticky',
+            'PyDBML.C02.tableRule_ok', 'PyDBML.C02.many_body', 'PyDBML.C02.stickyNoteRule_ok']
+MODULES = ['PyDBMLProofs.Props.C02Sticky', 'PyDBMLProofs.Props.C02Table']
 
 
 def canonical_ref_order(spec):
@@ -285,11 +286,12 @@ def main(tier, seed):
         rule='databases from three sources: parsed from spelled documents, built through the public classes from Expressible '
              'values, and wild API-built ones (named reasons outside Expressible), plus the corpus; each rendered, re-parsed, '
              're-rendered twice. Non-trivial: >=1 table and >=2 features; distinct by content hash',
-        explanation='Theorem sticky_roundtrip_partial (end to end on the smallest element: a database holding one sticky note with a '
-                    'bare name and a one-line normalised text is rendered by the renderer model and read back by the character-level '
-                    'parser model + build model to exactly the same database, by symbolic execution of the grammar model; the '
-                    'per-primitive lemmas are general). It is PARTIAL: every other element kind is decided by the oracle and the '
-                    'correspondence below, not by a theorem. Oracle on the real code: content(parse(db.dbml)) == content(db) and the second and third renderings are '
+        explanation='Theorems table_roundtrip_partial (a database holding one table in schema public with ANY positive number of columns, '
+                    'each with a quoted name and a one-word type, is rendered by the renderer model and read back by the character-level '
+                    'parser model + build model to exactly the same database: induction over the column list through the fuelled `many`) '
+                    'and sticky_roundtrip_partial (one sticky note, bare name, one-line text), by symbolic execution of the grammar model '
+                    'with general per-primitive lemmas. They are PARTIAL: settings, notes, indexes, enums, references, groups, the '
+                    'project and several elements per document are decided by the oracle and the correspondence below, not by a theorem. Oracle on the real code: content(parse(db.dbml)) == content(db) and the second and third renderings are '
                     'byte-identical. Correspondence: the Lean DBML renderer gives the same text and the Lean parser model reads '
                     'it back to the same content. The domain predicate Expressible (harness/expressible.py, DESIGN 5.3) names '
                     'every excluded region; each has a committed witness in known_findings.json.',
